@@ -36,6 +36,7 @@ type Program struct {
 	capSorts    []Sort
 	cloMaps     []*types.Map
 	inlCache    map[*ssa.Function]bool
+	Anchors     map[string][]string // repo-relative source file -> properties anchored in it
 }
 
 func loadProgram(repo string) (*Program, error) {
